@@ -15,9 +15,9 @@
 #           signal: the block ends WITHOUT exception, the program continues as if
 #           the body had not failed.
 # Confidence: medium/high (the error of the program's own code is silently lost).
-import sys; sys.path.insert(0, '/tmp/hunt2')
+import sys; sys.path.insert(0, '/repo')
 import usim
-assert usim.__file__.startswith('/tmp/hunt2')
+assert usim.__file__.startswith('/repo')
 from usim import run, time, Scope, until, Flag, Resources
 
 
